@@ -79,19 +79,22 @@ example : fragsOfAdd { typ := .attrDynamicValue, lit := [97, 44, 10, 98], line :
     [⟨3, 6, 19, 30, 2⟩, ⟨4, 0, 20, 0, 1⟩] := by decide +kernel
 
 /-- (a) **the lexer reports the true start of every Go fragment** — for every input, every token of a
-fragment type (script, silent script, dynamic attribute value, interpolation, object reference, `@render`
-arguments, `@attributes` arguments) that the lexer delivers has as its text a contiguous stretch `sr` of the
+fragment type — inside templates: script, silent script, dynamic attribute value, interpolation, object
+reference, `@render` arguments, `@attributes` arguments, the template declaration; outside: Go code lines,
+package clause, imports (every token type whose text the emitter registers in the position map) — that the
+lexer delivers has as its text a contiguous stretch `sr` of the
 input, `input = pre ++ sr ++ rest` (as runes), and as its (line, column) the 1-based line and the 1-based
 UTF-16 column of the first character of that stretch: the number of lines of `pre`, and one more than the
-UTF-16 length of `pre`'s last line.  Rests on three invariants of all 49 state functions: the lexer's
-line/column bookkeeping is the true position of the read cursor (`step_tinv`), the fragment states are only
-entered with an empty pending literal (`step_clean`), and only the seven fragment states emit fragment tokens
-(`step_frag`).  Hypothesis: no rune of the input was read from an ill-formed byte (then Go appends the
+UTF-16 length of `pre`'s last line.  Rests on four invariants of all 49 state functions: the lexer's
+line/column bookkeeping is the true position of the read cursor (`step_tinv`), the fragment states inside
+templates are only entered with an empty pending literal (`step_clean`), the Go-code states hand each other a
+pending literal that is the input text in front of the cursor (`step_contig`), and only the fragment states
+emit fragment tokens (`step_frag`).  Hypothesis: no rune of the input was read from an ill-formed byte (then Go appends the
 three-byte U+FFFD to the literal but cuts one byte off when it skips or backs up). -/
 theorem fragment_tokens_true_position (input : GoStr) (hwf : WF (decodeAll input)) :
     ∀ t ∈ (lexResult input).toks, isFrag t.typ = true → TokAt (decodeAll input) t := by
   have hg : Good (decodeAll input) := ⟨runeOK_decodeFuel _ _, encOK_decodeFuel _ _, hwf⟩
-  exact run_frag hg _ _ _ [] (tinv_initL input) (fun h => by cases h) rfl (fun t ht => by cases ht)
+  exact run_frag hg _ _ _ [] (tinv_initL input) (fun h => by cases h) (fun _ => snil_sinv _ ⟨tinv_initL input, rfl⟩) rfl (fun t ht => by cases ht)
 
 /-- in every configuration the lexer passes through, its line/column bookkeeping is the UTF-16 position of
 the read cursor (lines read so far, current line first; a line's length includes its line feed) -/
@@ -101,12 +104,12 @@ theorem lexer_bookkeeping_is_cursor_position (input : GoStr) (st : St) (l : L) (
   exact ⟨done, hin, hpos⟩
 
 /-- non-vacuity: a template with a non-ASCII rune before a fragment meets the hypothesis, and the script token
-`s` of `%p= s` on line 3 is reported at line 3, column 6 -/
+`s` of `%p= s` on line 3 is reported at line 3, column 6 (and the declaration `T(s string)` at line 1, column 7) -/
 example : WF (decodeAll (bs "@goht T(s string) {\n\t%é\n\t%p= s\n}\n")) := by
   show ∀ r ∈ decodeAll (bs "@goht T(s string) {\n\t%é\n\t%p= s\n}\n"), r.width = r.enc.length
   decide +kernel
 example : ((lexResult (bs "@goht T(s string) {\n\t%é\n\t%p= s\n}\n")).toks.filter (fun t => isFrag t.typ)).map (fun t => (t.lit, t.line, t.col))
-    = [([115], 3, 6)] := by decide +kernel
+    = [([84, 40, 115, 32, 115, 116, 114, 105, 110, 103, 41], 1, 7), ([115], 3, 6)] := by decide +kernel
 
 -- PLANNED: coverage — every fragment kind of the grammar reaches exactly one `Add`
 
